@@ -5,7 +5,7 @@ from props import common
 
 ID = "C01"
 LEVEL = "proof"
-LEVEL_TEXT = "Theorems in Lean 4 over the executable model: zero is a two-sided identity, + is commutative and associative on states of one live tree, merge is a homomorphism for fill, fill-of-concatenation equals merge of fills, and partition invariance for every list of chunks and every reduction schedule (unbounded trees, streams, partitions, schedules); the model is tied to /repo on every run by a differential correspondence run over generated partitions/schedules, which also evaluates the theorems' hypotheses on the reached states."
+LEVEL_TEXT = "Theorems in Lean 4 over the executable model: zero is a two-sided identity, + is commutative and associative on states of one live tree, merge is a homomorphism for fill, fill-of-concatenation equals merge of fills, and partition invariance for every list of chunks and every reduction schedule (unbounded trees, streams, partitions, schedules); the model is tied to /repo on every run by a differential correspondence run over generated partitions/schedules, which also evaluates the theorems' hypotheses on the reached states. Also proved: the same partition invariance with every chunk filled by one vectorised fill (np_partition_invariant, tied by fill.numpy chunk runs), and for a Count with any weight transform (CountT model, tied by a driver query on every case's weights)."
 LEVEL_NOTE = 'Exact-rational arithmetic with nan/+-inf (IEEE rounding of sums/means/variances is the declared gap); hypotheses good/hasTmpl/noBins/sameBase/goodRun are executable and checked on the real runs; model-to-code tie is differential (harness), not a translation.'
 TECHNIQUE = 'Lean 4 proof over a hand-written model + model/implementation correspondence + implementation-level oracle'
 LEAN_MODULE = "Hg.Props.C01"
